@@ -81,8 +81,10 @@ class Source:
         if ':' in qual:
             mn, fn = qual.split(':')
             return s.funcs[(mn, fn)], None, mn
-        cls, fn = qual.split('.')
+        cls, fn = qual.split('.', 1)
         c = s.classes[cls]
+        if fn.endswith('.setter'):
+            return c['setters'][fn[:-7]], cls, c['module']
         for k in ('methods', 'props', 'classmethods'):
             if fn in c[k]:
                 return c[k][fn], cls, c['module']
